@@ -6,6 +6,10 @@ import os
 
 HERE = os.path.dirname(os.path.dirname(os.path.abspath(__file__)))
 rows = []
+try:
+    NOTES = json.load(open(os.path.join(HERE, "seeded", "NOTES.json")))
+except FileNotFoundError:
+    NOTES = {}
 for d in sorted(glob.glob(os.path.join(HERE, "seeded", "C*_*"))):
     m = json.load(open(os.path.join(d, "meta.json")))
     name = os.path.basename(d)
@@ -23,7 +27,11 @@ for d in sorted(glob.glob(os.path.join(HERE, "seeded", "C*_*"))):
             if "subcheck=" in ln:
                 first = ln.strip().split(":", 1)[0].replace("subcheck=", "")
                 break
-        rows.append(f"| {name} | {prop} | {summ} | {need} | {k} | {'yes' if r['detected'] else 'NO'} | {r['seconds']} | {first} |")
+        # seeded/NOTES.json: {seed: why a change is, by the check's documented assumptions, not a
+        # violation} - kept outside meta.json, which tools/seedtest.py rewrites
+        note = NOTES.get(name)
+        verdict = 'yes' if r['detected'] else ('no (' + note + ')' if note else 'NO')
+        rows.append(f"| {name} | {prop} | {summ} | {need} | {k} | {verdict} | {r['seconds']} | {first} |")
     else:
         rows.append(f"| {name} | {prop} | {summ} | {need} | - | - | - | - |")
 with open(os.path.join(HERE, "seeded", "RESULTS.md"), "w") as f:
